@@ -361,6 +361,72 @@ def run(ctx):
             r.ok("parse_boolean: '%s' -> %s" % (lit, val))
         else:
             r.fail(pb, pb.node, "'%s' -> %s" % (lit, val), "parse_boolean does not map the text form '%s' back to %s" % (lit, val))
+
+    # ---------------------------------------------------------------- R8
+    r = ctx.rule("C07-R8", "ORDER", "construction succeeds only after validation: on every normal path through the constructor chain of each "
+                 "constructible class, every unconditional validator its hierarchy defines (flags, long name, short name) has been called", reference=7)
+
+    def must_calls(cls, init, depth=0):
+        """names of self-methods called on every normal path through ``init`` (following super().__init__)"""
+        cfg = ctx.cfg(init)
+        out = set()
+        for c in q.calls(init):
+            nodes = cfg.nodes_of(c)
+            if not nodes:
+                continue
+            always = cfg.post_dominated_by(cfg.entry.id, {n.id for n in nodes})
+            if not always:
+                continue
+            f = c.func
+            if isinstance(f, ast.Attribute) and isinstance(f.value, ast.Name) and f.value.id == "self":
+                out.add(f.attr)
+            elif isinstance(f, ast.Attribute) and f.attr == "__init__" and isinstance(f.value, ast.Call) and isinstance(f.value.func, ast.Name) and f.value.func.id == "super" and depth < 4:
+                for t in cg.site_for(init, c).targets:
+                    if t.name == "__init__" and t.cls is not None:
+                        out |= must_calls(t.cls, t, depth + 1)
+        return out
+
+    for cls in (opt, copt, arg):
+        init = next((c.methods["__init__"] for c in cls.mro if isinstance(c, ClassInfo) and "__init__" in c.methods), None)
+        ctx.require(init is not None, "%s has no constructor" % cls.name)
+        called = must_calls(cls, init)
+        validators = sorted({n for c in cls.mro if isinstance(c, ClassInfo) for n in c.methods if n.startswith("_validate_") and "alias" not in n})
+        for v in validators:
+            if v in called:
+                r.ok("%s(): %s on every path" % (cls.name, v))
+            else:
+                r.fail(init, init.node, "%s() without %s" % (cls.name, v), "constructing a %s does not call %s on every path: a combination that the validator rejects "
+                       "(contradictory flags, a malformed name) constructs successfully for this class" % (cls.name, v))
+
+    # ---------------------------------------------------------------- R9
+    r = ctx.rule("C07-R9", "ATOMIC", "a rejected set_default leaves the object as it was (value mode and default stay consistent): "
+                 "no write of the object's state precedes a raise in the setter", reference=2)
+    for cls in (opt, arg):
+        m = next((c.methods["set_default"] for c in cls.mro if isinstance(c, ClassInfo) and "set_default" in c.methods), None)
+        ctx.require(m is not None, "%s.set_default missing" % cls.name)
+        cfg = ctx.cfg(m)
+        writes = [n for n in cfg.nodes if n.kind == "stmt" and n.ast is not None and any(
+            isinstance(s_, (ast.Assign, ast.AugAssign)) and any(is_self_attr(t) or q.self_attr_root(t) is not None for t in (s_.targets if isinstance(s_, ast.Assign) else [s_.target]))
+            for s_ in walk_no_nested(n.ast))]
+        raises_ = [n for n in cfg.nodes if n.kind == "raise"]
+        bad = None
+        for w in writes:
+            after = cfg.reach([w.id])
+            for rz in raises_:
+                if rz.id in after:
+                    bad = (w, rz)
+        if bad:
+            r.fail(m, bad[0].ast, norm(bad[0].ast), "%s.set_default stores (%s) before its last check (%s): a rejected default is kept - e.g. a multi-valued option "
+                   "left with a non-list default" % (cls.name, norm(bad[0].ast), norm(bad[1].ast)[:50]))
+        else:
+            r.ok("%s.set_default: %d checks precede %d writes" % (cls.name, len(raises_), len(writes)))
+
+    # ---------------------------------------------------------------- R10
+    from .c02 import conversion_exc_rule
+
+    r = ctx.rule("C07-R10", "EXC", "conversion by the declared type raises nothing but ValueError: every builtin conversion in utils.string sits in "
+                 "a try that covers all classes it can raise (TypeError for None / a list, too) and re-raises ValueError (same rule as C02-R4)", reference=2)
+    conversion_exc_rule(ctx, r)
     return ctx.results
 
 
